@@ -82,13 +82,6 @@ def singleRow (rows : List Row) (o : Nat) : Bool :=
 /-- the token list after the lexical constraint on occurrence indicators (`EPV.Syn.absorbOcc`) -/
 def normalize (rows : List Row) (toks : List Tok) : List Tok := absorbOcc (occOfRow rows) (singleRow rows) toks
 
-/-- F04j trigger: after the occurrence-indicator normalisation, a type that carries an indicator is directly
-followed by a `?`, `*` or `+` operator token (`item()* * 2`, `node()+ + 1`, `array(*)+ + 1`) -/
-def trigF04j (rows : List Row) : List Tok → Bool
-  | .ty n :: .op o :: rest => (tyOcc n != 0 && (occOfRow rows o).isSome) || trigF04j rows (.op o :: rest)
-  | _ :: rest => trigF04j rows rest
-  | [] => false
-
 /-- the operator token of symbol `s` in a generated table (row index looked up by symbol) -/
 def opTok (rows : List Row) (s : String) : Tok := .op (rows.findIdx (·.sym == s))
 
@@ -123,6 +116,7 @@ def anyNode (p : Tree → Bool) : Tree → Bool
   | .bin o l r => p (.bin o l r) || anyNode p l || anyNode p r
   | .typed o l n => p (.typed o l n) || anyNode p l
   | .post o c l e => p (.post o c l e) || anyNode p l || anyNode p e
+  | .arrow o l f a => p (.arrow o l f a) || anyNode p l || anyNode p f || anyNode p a
 
 def binSym (rows : List Row) : Tree → Option String
   | .bin o _ _ => some (symOf rows o)
@@ -184,7 +178,10 @@ against the grammar `G` the table is consistent with:
 * L1 a prefix-operator expression as right operand / prefix operand of a tighter operator,
 * L2 a typed-operator expression as left operand of a tighter operator,
 * L3 an optional-once comparison whose left operand is a comparison of a *different* guard class, or a
-  `<<` / `>>` (no guard class) -/
+  `<<` / `>>` (no guard class),
+* L4 the function specifier and the argument list of `=>` are any expressions of a higher level (`a => $f?k(1)`,
+  `a => $f(1)(2)`: `led__arrow_operator` parses them with `expression(80)` / `expression(67)` and only checks that
+  the latter is `(`-topped) -/
 def nodeLaxOk (rows : List Row) (G : Gram) : Tree → Bool
   | .pre p x =>
       if G.ulk p then x.isKeySpec
@@ -206,6 +203,11 @@ def nodeLaxOk (rows : List Row) (G : Gram) : Tree → Bool
       | _ => false
   | .post o _ l _ => match G.led o with
       | some (j, .bracket _ _) => decide (j ≤ lvl G l) || l.isTyped
+      | _ => false
+  | .arrow o l f a => match G.led o with
+      | some (j, .arrow) =>
+          (decide (j ≤ lvl G l) || l.isTyped) && (f.isArrowSpec || decide (j + 1 ≤ lvl G f) || f.isPre) &&
+            (a.isGroup || decide (j + 1 ≤ lvl G a) || a.isPre)
       | _ => false
   | _ => true
 
@@ -276,6 +278,10 @@ theorem wfr_no_chain (T : Tbl) (cls : Nat → Nat) (hg : GuardsComplete T cls) :
     rcases he with ⟨rfl, -⟩ | he
     · simp [anyNode, sameClassChain, ihl hwl]
     · simp [anyNode, sameClassChain, ihl hwl, ihe he]
+  | arrow o l f a ihl ihf iha =>
+    intro h
+    cases hl : T.led o <;> simp only [WFr, hl] at h
+    simp [anyNode, sameClassChain, ihl h.1, ihf h.2.1, iha h.2.2.1]
 
 theorem guardsComplete_of_check (rows : List Row) (h : guardsB rows = true) :
     GuardsComplete (tableOf rows) (fun o => guardClass (symOf rows o)) := by
@@ -318,6 +324,7 @@ def notLedBuilt : Tree → Bool
   | .bin .. => false
   | .typed .. => false
   | .post .. => false
+  | .arrow .. => false
   | _ => true
 
 /-- in every tree returned by the parser, the operand of a prefix symbol whose nud-rbp dominates all
@@ -379,6 +386,12 @@ theorem dominant_prefix_operand (rows : List Row) (p r : Nat) (hp : ∃ rhs, (ta
           simp only [hled] at this
           simp only [lbpTop, gtO] at hgt
           omega
+        | arrow o l f a =>
+          cases hled : (tableOf rows).led o <;> simp only [WFr, hled] at hx
+          have := hl o
+          simp only [hled] at this
+          simp only [lbpTop, gtO] at hgt
+          omega
         | _ => simp [notLedBuilt]
       · simp [hqp]
     simp [anyNode, h0, ih hx]
@@ -397,6 +410,10 @@ theorem dominant_prefix_operand (rows : List Row) (p r : Nat) (hp : ∃ rhs, (ta
     rcases he with ⟨rfl, -⟩ | he
     · simp [anyNode, ihl hwl]
     · simp [anyNode, ihl hwl, ihe he]
+  | arrow o l f a ihl ihf iha =>
+    intro h
+    cases hled : (tableOf rows).led o <;> simp only [WFr, hled] at h
+    simp [anyNode, ihl h.1, ihf h.2.1, iha h.2.2.1]
 
 /-- the table with the `nud` of symbol `s` replaced by a plain prefix with the given rbp -/
 def withPrefixNud (rows : List Row) (s : String) (r : Nat) : List Row :=
